@@ -23,8 +23,12 @@ def api():
             pass
         class SubU(p.ulist):
             pass
+        import collections
         _API.update(ulist=p.ulist, SubU=SubU, classes={'dictattr': p.dictattr, 'Dict': p.Dict, 'SubDA': SubDA, 'SubD': SubD},
-                    others={'dict': dict, 'dictattr': p.dictattr, 'Dict': p.Dict})
+                    others={'dict': dict, 'dictattr': p.dictattr, 'Dict': p.Dict},
+                    # the realisations of a value that is a mapping itself: every dict class
+                    nests={'dict': dict, 'dictattr': p.dictattr, 'Dict': p.Dict, 'OrderedDict': collections.OrderedDict,
+                           'defaultdict': lambda: collections.defaultdict(int), 'SubD': SubD, 'SubDA': SubDA})
     return _API
 
 
@@ -49,8 +53,42 @@ def tags(xs):
     return [tag(v) for v in xs]
 
 
+NESTS = ('dict', 'dictattr', 'Dict', 'OrderedDict', 'defaultdict', 'SubD', 'SubDA')
+
+
+def tagv(v):
+    """a value of a mapping: a nested mapping of any dict class is ["m", {key: value}] (a deep snapshot), anything else a tagged value"""
+    if isinstance(v, dict):
+        return ['m', {str(k): tagv(x) for k, x in dict.items(v)}]
+    return tag(v)
+
+
+def untagv(v, nest='dict'):
+    if v[0] == 'm':
+        d = api()['nests'][nest]()
+        for k, x in objmap(v[1]).items():
+            dict.__setitem__(d, k, untagv(x, nest))
+        return d
+    return untag(v)
+
+
+def normv(v):
+    """what TLC printed -> the canonical encoding (TLC writes the empty function as [])"""
+    if isinstance(v, list) and len(v) == 2 and v[0] == 'm':
+        return ['m', {k: normv(x) for k, x in objmap(v[1]).items()}]
+    return v
+
+
+def norm_items(items):
+    return [[k, normv(v)] for k, v in items]
+
+
+def norm_fun(f):
+    return {k: normv(v) for k, v in objmap(f).items()}
+
+
 def enc_items(d):
-    return [[str(k), tag(v)] for k, v in dict.items(d)]
+    return [[str(k), tagv(v)] for k, v in dict.items(d)]
 
 
 def enc_map(d, *operands):
@@ -58,10 +96,10 @@ def enc_map(d, *operands):
     return {'kind': 'map', 'cls': cls_name(d), 'items': enc_items(d), 'is_new': all(d is not x for x in operands)}
 
 
-def build_map(cls, items, table=None):
+def build_map(cls, items, table=None, nest='dict'):
     d = (table or api()['classes'])[cls]()
     for k, v in items:
-        dict.__setitem__(d, k, untag(v))
+        dict.__setitem__(d, k, untagv(v, nest))
     return d
 
 
@@ -127,12 +165,17 @@ def obs_multiget(cls, items, ks):
     return {'op': 'multiget', 'd': {'cls': cls, 'items': items}, 'ks': ks, 'out': out, 'd_after': enc_items(d)}
 
 
-def obs_plus(op, cls, items, ocls, oitems):
-    d = build_map(cls, items)
+def obs_plus(op, cls, items, ocls, oitems, nest='dict'):
+    """nest: the dict class that realises the values of d which are mappings themselves (those of `other` are plain dicts)"""
+    d = build_map(cls, items, nest=nest)
     other = build_map(ocls, oitems, api()['others'])
     out = outcome(lambda: enc_map(d + other if op == 'plus' else d | other, d, other))
-    return {'op': op, 'form': ocls, 'd': {'cls': cls, 'items': items}, 'o': {'cls': ocls, 'items': oitems}, 'out': out,
-            'd_after': enc_items(d), 'o_after': enc_items(other)}
+    o = {'op': op, 'form': ocls, 'd': {'cls': cls, 'items': items}, 'o': {'cls': ocls, 'items': oitems}, 'out': out,
+         'd_after': enc_items(d), 'o_after': enc_items(other)}
+    if nest != 'dict':
+        o['nest'] = nest
+        o['form'] = ocls + '/' + nest
+    return o
 
 
 def obs_relabel(cls, items, blanket, indiv, form):
@@ -213,7 +256,181 @@ def obs_call(cls, base, plain, par, order, kin=None, star=None, shape=None):
             'd_after': enc_items(d), 'd_before': before}
 
 
-CASE_KEYS = ('op', 'fn', 'form', 'raw', 'u', 'x', 'd', 'ks', 'o', 'blanket', 'indiv', 'k', 'cls', 'base', 'plain', 'par', 'kin', 'star', 'shape', 'order')
+# ---- sessions: histories on the SAME objects (Algebra.tla section 4) ----------------------------------------------
+def edit_list(l, e):
+    """the list API, in place: e as in Algebra!EditL (1-based positions)"""
+    k = e[0]
+    if k == 'set':
+        l[e[1] - 1] = untag(e[2])
+    elif k == 'append':
+        l.append(untag(e[1]))
+    elif k == 'pop':
+        l.pop()
+    elif k == 'popappend':
+        l.pop(); l.append(untag(e[1]))
+    elif k == 'reverse':
+        l.reverse()
+    elif k == 'insert':
+        l.insert(e[1] - 1, untag(e[2]))
+    elif k == 'del':
+        del l[e[1] - 1]
+    elif k == 'clear':
+        del l[:]
+    else:
+        raise ValueError(k)
+
+
+def obs_useq(init, hist, sub=False):
+    """ONE ulist object through a history of calls, edits by its owner and edits of the results"""
+    A = api()
+    cls = A['SubU'] if sub else A['ulist']
+    u = cls([untag(v) for v in init])
+    obs, last = [], None
+    for k, a in hist:
+        s = {'out': [], 'exc': '', 'is_ulist': False, 'x_after': []}
+        if k == 'call':
+            if a[0] == 'op':
+                rx = real_x(a[2])
+                r = outcome(lambda: FN[a[1]](u, rx))
+                s['x_after'] = tags(rx) if a[2][0] == 'list' else []
+            elif a[0] == 'rop':
+                w = [untag(v) for v in a[2]]
+                r = outcome(lambda: FN[a[1]](A['ulist'](w), u))
+                s['x_after'] = tags(w)
+            else:
+                e = untag(a[1])
+                r = outcome(lambda: [e in u])
+            if isinstance(r, dict):
+                s['exc'], last = r['cls'], None
+            else:
+                s['out'], s['is_ulist'], last = tags(r), isinstance(r, A['ulist']), r
+        elif k == 'edit':
+            edit_list(u, a)
+        else:
+            edit_list(last, a)
+        s['u'] = tags(u)
+        obs.append(s)
+    return {'op': 'useq', 'form': ';'.join(a[0] for _, a in hist), 'sub': sub, 'init': init, 'hist': hist, 'obs': obs}
+
+
+def enc_state(o):
+    return {'d': enc_items(o['d']), 'e': enc_items(o['e']), 'K': list(o['K']), 'O': enc_items(o['O']), 'M': [[k, v] for k, v in o['M'].items()]}
+
+
+def obs_mses(cls, init, hist, nest='dict', ocls='dict'):
+    """the caller's objects d, e, K, O, M through a history of calls (the SAME K / O / M objects every time), edits by
+    their owner and edits of the results"""
+    A = api()
+    o = {'d': build_map(cls['d'], init['d'], nest=nest), 'e': build_map(cls['e'], init['e'], nest=nest), 'K': list(init['K']),
+         'O': build_map(ocls, init['O'], A['others']), 'M': {k: v for k, v in init['M']}}
+    obs, last = [], None
+    for k, a in hist:
+        s = {'out': {'kind': 'none'}}
+        if k == 'call':
+            r, K, O, M = o[a[1]], o['K'], o['O'], o['M']
+            f = {'minus': lambda: r - K, 'and': lambda: r & K, 'select': lambda: r[K], 'multiget': lambda: r[tuple(K)],
+                 'plus': lambda: r + O, 'or': lambda: r | O, 'keys': lambda: r.keys(),
+                 'relabel': lambda: r.relabel(M, **{p: q for p, q in a[2]})}[a[0]]
+            try:
+                last = f()
+                if a[0] == 'multiget':
+                    s['out'] = {'kind': 'list', 'items': [tagv(v) for v in last]}
+                elif a[0] == 'keys':
+                    s['out'] = {'kind': 'list', 'items': tags(last)}
+                else:
+                    s['out'] = enc_map(last, o['d'], o['e'], o['O'], o['M'])
+            except Exception as e:
+                s['out'], last = {'kind': 'exc', 'cls': type(e).__name__}, None
+        elif k == 'edit':
+            if a[0] == 'set':
+                o[a[1]][a[2]] = a[3] if a[1] == 'M' else untagv(a[3])
+            elif a[0] == 'del':
+                del o[a[1]][a[2]]
+            elif a[0] == 'clear':
+                o[a[1]].clear()
+            elif a[0] == 'appendK':
+                o['K'].append(a[1])
+            elif a[0] == 'popK':
+                o['K'].pop()
+            else:
+                raise ValueError(a[0])
+        else:
+            if a[0] == 'rset':
+                last[a[1]] = untag(a[2])
+            elif a[0] == 'rclear':
+                last.clear()
+            elif a[0] == 'rappend':
+                last.append(untag(a[1]))
+            else:
+                raise ValueError(a[0])
+        s['after'] = enc_state(o)
+        obs.append(s)
+    form = ';'.join(a[0] for _, a in hist) + ('/' + nest if nest != 'dict' else '')
+    return {'op': 'mses', 'form': form, 'cls': cls, 'nest': nest, 'ocls': ocls, 'init': init, 'hist': hist, 'obs': obs}
+
+
+def norm_state(st):
+    return {'d': norm_items(st['d']), 'e': norm_items(st['e']), 'K': list(st['K']), 'O': norm_items(st['O']), 'M': [list(p) for p in st['M']]}
+
+
+def norm_arg(a):
+    return [normv(x) if isinstance(x, list) and len(x) == 2 and x[0] == 'm' else x for x in a]
+
+
+def s2c_sessions(ctx, log, cases, all_nests=False):
+    """replay every history TLC printed on real objects; per step the outcome and what the caller's objects hold afterwards
+    are compared with == against what the specification expects"""
+    nu = nm = 0
+    for n, c in enumerate(cases):
+        hist = [[h['k'], norm_arg(h['a'])] for h in c['hist']]
+        if c['op'] == 'useq':
+            o = obs_useq(c['init'], hist, sub=nu % 3 == 2)
+            nu += 1
+            f = []
+            for h, s in zip(c['hist'], o['obs']):
+                if h['k'] == 'call':
+                    want = [untag(v) for v in h['out']]
+                    if s['exc'] or not ([untag(v) for v in s['out']] == want):       # Python's ==: what the property means by "equal"
+                        f.append('out')
+                    if h['a'][0] != 'in' and not s['is_ulist']:
+                        f.append('is_ulist')
+                    if s['x_after'] != (h['a'][2][1] if h['a'][0] == 'op' and h['a'][2][0] == 'list' else h['a'][2] if h['a'][0] == 'rop' else []):
+                        f.append('x_after')
+                if s['u'] != h['st']:
+                    f.append('u')
+            log.s2c(o, tuple(sorted(set(f))))
+            if any(h['k'] == 'call' and h['out'] != c['hist'][0]['out'] for h in c['hist'][1:]):
+                ctx.note(('useq', json.dumps([c['init'], hist])))
+        else:
+            init, cls = norm_state(c['init']), c['cls']
+            nests = NESTS if all_nests else (NESTS[nm % 7],)
+            for nest in nests:
+                o = obs_mses(cls, init, hist, nest=nest, ocls=('dict', 'dictattr', 'Dict')[nm % 3])
+                f = []
+                for h, s in zip(c['hist'], o['obs']):
+                    if h['k'] == 'call':
+                        w = h['out']
+                        if w[0] == 'exc':
+                            ok = s['out'] == {'kind': 'exc', 'cls': w[1]}
+                        elif w[0] == 'map':
+                            ok = map_ok(s['out'], cls[h['a'][1]], norm_fun(w[1]))
+                        else:
+                            ok = s['out'] == {'kind': 'list', 'items': [normv(v) for v in w[1]]}
+                        if not ok:
+                            f.append('out')
+                    if s['after'] != norm_state(h['st']):
+                        f.append('after')
+                log.s2c(o, tuple(sorted(set(f))))
+            nm += 1
+            if any(h['k'] == 'edit' for h in c['hist']):
+                ctx.note(('mses', json.dumps([c['init'], cls, hist], sort_keys=True)))
+        ctx.traces += 1
+        if n % 9973 == 4321:
+            ctx.sample({'s2c_session': c})
+
+
+CASE_KEYS = ('op', 'fn', 'form', 'raw', 'u', 'x', 'd', 'ks', 'o', 'blanket', 'indiv', 'k', 'cls', 'base', 'plain', 'par', 'kin', 'star', 'shape', 'order',
+             'nest', 'ocls', 'sub', 'init', 'hist')
 
 
 # ---- S2C -----------------------------------------------------------------------------------------
@@ -288,11 +505,18 @@ def s2c_map(ctx, log, cases):
                 ctx.note(('keys', json.dumps([items, arg])))
         elif kind == 'other':
             ocls = ('dict', 'dictattr', 'Dict')[n % 3]
-            for op in ('plus', 'or'):
-                o = obs_plus(op, cls, items, ocls, arg)
-                log.s2c(o, map_ok(o['out'], cls, objmap(want['plus'])) and o['d_after'] == items and o['o_after'] == arg)
+            items, arg = norm_items(items), norm_items(arg)
+            # values of d that are mappings themselves are realised by every dict class (quick tier: two of the seven per case)
+            nests = ('dict',) if not any(v[0] == 'm' for _, v in items) else NESTS if not ctx.quick else (NESTS[n % 7], NESTS[(n + 3) % 7])
+            for nest in nests:
+                for op in ('plus', 'or'):
+                    o = obs_plus(op, cls, items, ocls, arg, nest)
+                    w = want['tplus'] if op == 'plus' and cls in ('Dict', 'SubD') else want['plus']      # Dict + other is tree_update
+                    log.s2c(o, map_ok(o['out'], cls, norm_fun(w)) and o['d_after'] == items and o['o_after'] == arg)
             if items and arg and set(as_dict(items)) & set(as_dict(arg)):
                 ctx.note(('plus', json.dumps([items, arg])))
+                if want['tplus'] != want['plus']:
+                    ctx.note(('tplus', json.dumps([items, arg])))
         elif kind == 'ren':
             if want['collides']:
                 continue                                   # outside the property: two keys renamed onto one
@@ -483,6 +707,116 @@ def c2s_call(ctx, log, ngraphs, norders):
             ctx.sample({'c2s_call': o})
 
 
+def c2s_useq(ctx, log, n):
+    """random longer sessions on one ulist: calls, edits by the owner that keep it duplicate-free, edits of results"""
+    rng = ctx.rng
+    for i in range(n):
+        pool = rng.sample(ELEMS, rng.choice([3, 5, 8]))
+        cur = []
+        for v in (rng.choice(pool) for _ in range(rng.choice([1, 2, 3, 5]))):
+            if untag(v) not in [untag(w) for w in cur]:
+                cur.append(v)
+        init, hist, can_redit = list(cur), [], False
+        for _ in range(rng.choice([4, 6, 9, 12])):
+            r = rng.random()
+            fresh = [v for v in pool if untag(v) not in [untag(w) for w in cur]]
+            if r < 0.5:
+                q = rng.random()
+                if q < 0.5:
+                    a = ['op', rng.choice(['add', 'or', 'sub', 'and']), ['elem', rng.choice(pool)] if rng.random() < 0.6 else
+                         ['list', [rng.choice(pool) for _ in range(rng.choice([0, 1, 2, 4]))]]]
+                elif q < 0.75:
+                    a = ['rop', rng.choice(['add', 'or', 'sub', 'and']), [rng.choice(pool) for _ in range(rng.choice([1, 2, 4]))]]
+                else:
+                    a = ['in', rng.choice(pool)]
+                hist.append(['call', a]); can_redit = a[0] != 'in'
+                continue
+            if r < 0.6 and can_redit:
+                hist.append(['redit', rng.choice([['append', rng.choice(pool)], ['clear'], ['reverse']])]); can_redit = False
+                continue
+            kinds = ['reverse', 'clear'] + (['pop', 'del'] if cur else []) + (['append', 'insert'] + (['set', 'set', 'popappend', 'popappend'] if cur else []) if fresh else [])
+            k = rng.choice(kinds)
+            if k == 'set':
+                e = ['set', rng.randint(1, len(cur)), rng.choice(fresh)]; cur[e[1] - 1] = e[2]
+            elif k == 'append':
+                e = ['append', rng.choice(fresh)]; cur.append(e[1])
+            elif k == 'insert':
+                e = ['insert', rng.randint(1, len(cur) + 1), rng.choice(fresh)]; cur.insert(e[1] - 1, e[2])
+            elif k == 'popappend':
+                e = ['popappend', rng.choice(fresh + [cur[-1]])]; cur[-1] = e[1]
+            elif k == 'pop':
+                e = ['pop']; cur.pop()
+            elif k == 'del':
+                e = ['del', rng.randint(1, len(cur))]; del cur[e[1] - 1]
+            elif k == 'reverse':
+                e = ['reverse']; cur.reverse()
+            else:
+                e = ['clear']; cur = []
+            hist.append(['edit', e]); can_redit = False
+        o = obs_useq(init, hist, sub=rng.random() < 0.3)
+        log.c2s(o)
+        if sum(1 for k, _ in hist if k == 'call') >= 2 and any(k == 'edit' for k, _ in hist):
+            ctx.note(('c2s-useq', json.dumps([init, hist])))
+        if i % 499 == 7:
+            ctx.sample({'c2s_useq': o})
+
+
+def c2s_mses(ctx, log, n):
+    """random longer sessions on the caller's mappings: the same K / O / M objects through calls on two receivers, edits, edits of results"""
+    rng = ctx.rng
+    nestv = lambda: ['m', {k: rng.choice(MVALS[:6]) for k in rng.sample(['x', 'y', 'z'], rng.randint(1, 3))}]
+    val = lambda p: nestv() if rng.random() < p else rng.choice(MVALS)
+    for i in range(n):
+        keys = rng.sample(MKEYS, 5)
+        init = {'d': [[k, val(0.3)] for k in rng.sample(keys, rng.randint(1, 4))], 'e': [[k, val(0.3)] for k in rng.sample(keys, rng.randint(0, 3))],
+                'K': [rng.choice(keys + ['absent']) for _ in range(rng.randint(0, 3))],
+                'O': [[k, val(0.4)] for k in rng.sample(keys, rng.randint(0, 3))],
+                'M': [[k, 'n_' + k] for k in rng.sample(keys, rng.randint(0, 3))]}           # fresh names: collision-free whatever the receiver holds
+        cls = {'d': rng.choice(CLS), 'e': rng.choice(CLS)}
+        hist, lastkind, nfresh = [], None, 0
+        for _ in range(rng.choice([3, 5, 8])):
+            r = rng.random()
+            if r < 0.55:
+                name = rng.choice(['minus', 'and', 'select', 'multiget', 'plus', 'plus', 'or', 'keys', 'relabel', 'relabel'])
+                a = [name, rng.choice(['d', 'e'])]
+                if name == 'relabel':
+                    nfresh += 1
+                    a.append([[k, 'i%d_%s' % (nfresh, k)] for k in rng.sample(keys, rng.choice([0, 1, 2]))])
+                hist.append(['call', a]); lastkind = 'list' if name in ('multiget', 'keys') else 'map'
+            elif r < 0.65 and lastkind:
+                hist.append(['redit', ['rappend', ['s', 'zz']] if lastkind == 'list' else rng.choice([['rset', rng.choice(keys), ['i', 99]], ['rclear']])])
+                lastkind = None             # (a call that raised has no result: such a redit is skipped by the driver)
+            else:
+                q = rng.random()
+                if q < 0.45:
+                    e = ['set', rng.choice(['d', 'e', 'O']), rng.choice(keys), val(0.3)]
+                elif q < 0.6:
+                    nfresh += 1
+                    e = ['set', 'M', rng.choice(keys), 'm%d' % nfresh]
+                elif q < 0.75:
+                    e = ['clear', rng.choice(['O', 'M', 'e'])]
+                elif q < 0.9:
+                    e = ['appendK', rng.choice(keys)]
+                else:
+                    e = ['popK']
+                hist.append(['edit', e]); lastkind = None
+        o = obs_mses_safe(cls, init, hist, nest=rng.choice(NESTS), ocls=rng.choice(['dict', 'dictattr', 'Dict']))
+        log.c2s(o)
+        ctx.note(('c2s-mses', json.dumps([init, hist], sort_keys=True)))
+        if i % 499 == 7:
+            ctx.sample({'c2s_mses': o})
+
+
+def obs_mses_safe(cls, init, hist, nest, ocls):
+    """random histories may hold a step that cannot be performed (K.pop() on an empty list, an edit of the result of a call
+    that raised): the history is cut before it"""
+    for cut in range(len(hist), -1, -1):
+        try:
+            return obs_mses(cls, init, hist[:cut], nest=nest, ocls=ocls)
+        except (IndexError, AttributeError, TypeError, KeyError):
+            continue
+
+
 def gen(ctx, module, cfg):
     """TLC's workers print the cases in an order that varies from run to run: sort them, so that everything the
     driver derives from the position of a case (class rotation, seeded choices, samples) is reproducible"""
@@ -512,6 +846,19 @@ def run(ctx):
     s2c_ulist(ctx, log, [c for c in cases if c['op'] == 'ulist'])
     s2c_map(ctx, log, [c for c in cases if c['op'] == 'map'])
     s2c_call(ctx, log, [c for c in cases if c['op'] == 'call'])
+    # sessions: histories call ; edit by the owner / of the result ; call on the SAME objects, enumerated by TLC (the invariants
+    # of MC_AlgebraSes are checked in the same run); thorough: also TLC-simulated free sessions of 7 steps and the two
+    # mechanism models that must break the law (a membership memo keyed on the length; relabel adopting the caller's dict)
+    s2c_sessions(ctx, log, gen(ctx, 'MC_AlgebraSes', 'MC_AlgebraSes_gen.cfg' if ctx.quick else 'MC_AlgebraSes_gent.cfg'), all_nests=False)
+    if not ctx.quick:
+        ctx.mc('MC_AlgebraSes', 'MC_AlgebraSes_thorough.cfg')
+        ctx.mc('MC_AlgebraSes', 'MC_AlgebraSes_memo.cfg', must_fail='MemoIsMembers', coverage=False)
+        ctx.mc('MC_AlgebraSes', 'MC_AlgebraSes_adopt.cfg', must_fail='CallsOwnNothing', coverage=False)
+        sim = sorted(ctx.generate('MC_AlgebraSes', 'MC_AlgebraSes_sim.cfg', simulate=30000, depth=12, seed=ctx.seed + 16),
+                     key=lambda c: json.dumps(c, sort_keys=True))
+        s2c_sessions(ctx, log, sim, all_nests=False)
+    c2s_useq(ctx, log, 500 if ctx.quick else 6000)
+    c2s_mses(ctx, log, 500 if ctx.quick else 6000)
     c2s_ulist(ctx, log, 600 if ctx.quick else 8000)
     c2s_map(ctx, log, 600 if ctx.quick else 8000)
     c2s_call(ctx, log, 40 if ctx.quick else 600, 60)
@@ -541,8 +888,12 @@ def replay(ctx, body):
         o = obs_select(c['d']['cls'], c['d']['items'], c['ks'])
     elif op == 'multiget':
         o = obs_multiget(c['d']['cls'], c['d']['items'], c['ks'])
+    elif op == 'useq':
+        o = obs_useq(c['init'], c['hist'], c.get('sub', False))
+    elif op == 'mses':
+        o = obs_mses(c['cls'], c['init'], c['hist'], c.get('nest', 'dict'), c.get('ocls', 'dict'))
     elif op in ('plus', 'or'):
-        o = obs_plus(op, c['d']['cls'], c['d']['items'], c['o']['cls'], c['o']['items'])
+        o = obs_plus(op, c['d']['cls'], c['d']['items'], c['o']['cls'], c['o']['items'], c.get('nest', 'dict'))
     elif op == 'relabel':
         o = obs_relabel(c['d']['cls'], c['d']['items'], c['blanket'], c['indiv'], c['form'].split('+')[0])
     elif op == 'attr':
